@@ -1841,10 +1841,11 @@ where
                         }
                     }
                     PropertyEscapeKind::StringSet(_) if negate => error("Invalid character escape"),
-                    PropertyEscapeKind::StringSet(strings) => Ok(ir::Node::StringSet {
-                        alternatives: strings.iter().map(|s| Box::from(*s)).collect(),
-                        icase: self.flags.icase,
-                    }),
+                    // Strings are tried longest first, as inside a class.
+                    PropertyEscapeKind::StringSet(strings) => Ok(ClassSetAlternativeStrings(
+                        strings.iter().map(|s| Box::from(*s)).collect(),
+                    )
+                    .into_node(self.flags.icase)),
                 }
             }
 
